@@ -896,6 +896,67 @@ func main() {
 				}
 			})
 		})
+
+		// Large masked payloads taken in pieces: a first Read of 1..3 bytes (so that the rest
+		// starts at an unaligned key position), then the remainder in one buffer that it fills
+		// exactly, or in blocks; payload sizes around 4 KiB / 8 KiB / 64 KiB and every residue
+		// mod 64. No entry point may panic, and the bytes are the payload.
+		r.Part("E7-large-masked-payloads-in-pieces", func(t *explore.T) {
+			var sizes []int
+			for _, base := range []int{4096, 8192, 65536} {
+				for d := -2; d <= 66; d++ {
+					sizes = append(sizes, base+d)
+				}
+			}
+			t.Par(len(sizes), func(si int) {
+				n := sizes[si]
+				payload := make([]byte, n)
+				for i := range payload {
+					payload[i] = byte(i*13 + i>>9 + 5)
+				}
+				wire := refmodel.Frame{H: refmodel.Hdr{Fin: true, Op: 2, Masked: true, Mask: [4]byte{0x9a, 0x05, 0xf1, 0x3c}}, Payload: payload}.Wire()
+				for first := 0; first <= 3; first++ {
+					for _, rest := range []string{"exact-buffer", "blocks-of-4096", "ReadAll"} {
+						first, rest := first, rest
+						t.Do(func() string { return fmt.Sprintf("masked binary frame of %d bytes: Read(%d) then %s", n, first, rest) }, func() *explore.Fail {
+							rd := &wsutil.Reader{Source: env.NewSrc(wire), State: ws.StateServerSide}
+							if _, err := rd.NextFrame(); err != nil {
+								return explore.Failf("harness-frame", "%v", err)
+							}
+							got := make([]byte, first, n)
+							if _, err := io.ReadFull(rd, got); err != nil {
+								return explore.Failf("first-read", "%v", err)
+							}
+							switch rest {
+							case "exact-buffer":
+								b := make([]byte, n-first)
+								if _, err := io.ReadFull(rd, b); err != nil {
+									return explore.Failf("rest-read", "%v", err)
+								}
+								got = append(got, b...)
+							case "blocks-of-4096":
+								b := make([]byte, 4096)
+								for {
+									k, err := rd.Read(b)
+									got = append(got, b[:k]...)
+									if err != nil {
+										break
+									}
+								}
+							default:
+								b, _ := io.ReadAll(rd)
+								got = append(got, b...)
+							}
+							if !bytes.Equal(got, payload) {
+								return explore.Failf("large-masked-payload-differs", "%d bytes read, first difference at %d", len(got), firstDiffAt(got, payload))
+							}
+							return nil
+						})
+					}
+				}
+			})
+			t.Outcome("exact")
+		})
 	})
 }
 
@@ -975,4 +1036,16 @@ func firstLines(s string, n int) string {
 		l = l[:n]
 	}
 	return strings.Join(l, "\n")
+}
+
+func firstDiffAt(a, b []byte) int {
+	for i := 0; i < len(a) && i < len(b); i++ {
+		if a[i] != b[i] {
+			return i
+		}
+	}
+	if len(a) < len(b) {
+		return len(a)
+	}
+	return len(b)
 }
